@@ -78,6 +78,7 @@ def make_logging_process(level: tlog.LogLevel, namespace_regexp: str, on_error: 
 
     def handle_logs(record_vals: Iterable[int]) -> None:
         it = iter(record_vals)
+        error = False
 
         for record in records:
             trigger = next(it)
@@ -98,7 +99,11 @@ def make_logging_process(level: tlog.LogLevel, namespace_regexp: str, on_error: 
             )
 
             if record.level >= logging.ERROR:
-                on_error()
+                error = True
+
+        # every record of the cycle is reported before the simulation is stopped
+        if error:
+            on_error()
 
     async def log_process(sim: ProcessContext) -> None:
         global _sim_cycle
